@@ -250,6 +250,44 @@ func stressHandshakeShutdown(pending int) error {
 	return problem
 }
 
+// stressAcceptBurstShutdown: Shutdown issued while a burst of connections is being accepted - some sessions are just being
+// registered and started, some are running, some connections are still queued. Anything a starting session reads from the
+// Server without the lock races with what Shutdown writes under it.
+func stressAcceptBurstShutdown(rng *rand.Rand, nConn int) error {
+	s := &kmip.Server{}
+	l := rec.NewListener()
+	init := make(chan struct{})
+	ret := make(chan error, 1)
+	go func() { ret <- s.Serve(l, init) }()
+	<-init
+	var clients []*rec.MemConn
+	for i := 0; i < nConn; i++ {
+		sc, cc := rec.Pipe()
+		clients = append(clients, cc)
+		l.Push(rec.AcceptStep{Conn: rec.NewConn(sc, i+1)})
+		if i == nConn/2 {
+			for spin := rng.Intn(2000); spin > 0; spin-- {
+				runtime.Gosched()
+			}
+		}
+	}
+	ctx, cancel := context.WithTimeout(context.Background(), 10*time.Second)
+	defer cancel()
+	sdDone := make(chan error, 1)
+	go func() { sdDone <- s.Shutdown(ctx) }()
+	for _, cc := range clients {
+		cc.Close()
+	}
+	var err error
+	if e := <-sdDone; e != nil {
+		err = fmt.Errorf("shutdown: %v", e)
+	}
+	if e := <-ret; e != nil {
+		err = fmt.Errorf("serve: %v", e)
+	}
+	return err
+}
+
 // yieldingWriter hands the processor to other goroutines inside every Write, the way a net.Conn with a slow peer does: anything
 // an Encoder still refers to while it writes is exposed to whatever other Encoders do meanwhile
 type yieldingWriter struct{ buf bytes.Buffer }
@@ -328,7 +366,7 @@ func runC12(r *Result, d *drv.Driver, tier string, seed int64, replay string) {
 	if tier == "thorough" {
 		rounds, nConn, nReq, codecN = 40, 24, 60, 2000
 	}
-	r.Rule = fmt.Sprintf("the real library under Go's race detector (kvrun built with -race=%v): %d rounds of %d concurrent sessions x %d two-item requests (auth callbacks, a panicking handler, the built-in Discover Versions) with Shutdown issued at a random moment; the same number of rounds of 8 connections sending their first requests simultaneously to a zero-value Server (no Handle, no callbacks); the same number of rounds of a TLS-serving Server shut down while one session is established and 1..3 accepted connections have not begun their handshake; "+
+	r.Rule = fmt.Sprintf("the real library under Go's race detector (kvrun built with -race=%v): %d rounds of %d concurrent sessions x %d two-item requests (auth callbacks, a panicking handler, the built-in Discover Versions) with Shutdown issued at a random moment; the same number of rounds of 8 connections sending their first requests simultaneously to a zero-value Server (no Handle, no callbacks); the same number of rounds of a TLS-serving Server shut down while one session is established and 1..3 accepted connections have not begun their handshake; 8x that number of rounds of Shutdown issued while a burst of 8 connections is being accepted; "+
 		"16 goroutines encoding/decoding overlapping types through independent Encoders/Decoders; the C11 schedule replays and a batch of C07 session scripts, all in one process. Every detector report is a finding. distinct = one per workload round", raceEnabled, rounds, nConn, nReq)
 	rng := rand.New(rand.NewSource(seed))
 	total := 0
@@ -352,6 +390,13 @@ func runC12(r *Result, d *drv.Driver, tier string, seed int64, replay string) {
 		r.eval(fmt.Sprintf("handshake-during-shutdown-round-%d", i), true)
 		if err := stressHandshakeShutdown(1 + i%3); err != nil {
 			r.find(Finding{Kind: "violation", What: "Shutdown of a TLS-serving Server did not account for connections accepted before it but still in their TLS handshake (session registered after the wait began)", Input: fmt.Sprintf("round %d: one established session, %d accepted connection(s) not yet handshaking, Shutdown, established session ends, pending peers handshake afterwards", i, 1+i%3), Actual: err.Error()})
+		}
+	}
+	for i := 0; i < rounds*8; i++ {
+		r.eval(fmt.Sprintf("accept-burst-shutdown-round-%d", i), true)
+		crumb(fmt.Sprintf("C12 accept-burst round %d: 8 connections pushed, Shutdown while they are being accepted", i))
+		if err := stressAcceptBurstShutdown(rng, 8); err != nil {
+			r.find(Finding{Kind: "violation", What: "server did not shut down cleanly while a burst of connections was being accepted", Input: fmt.Sprintf("round %d", i), Actual: err.Error()})
 		}
 	}
 	stressCodec(seed, 16, codecN)
